@@ -164,8 +164,8 @@ int main()
       std::list<GNU_gama::DataObject::Base*> objects;
       Probe p(objects);
       std::stringstream istr(unhexs(t[2]));
-      double f; std::string w;
-      for (char c : t[1]) { if (c == 'd') istr >> f; else if (c == 'w') istr >> w; }
+      double f; std::string w; int n; std::size_t u;
+      for (char c : t[1]) { if (c == 'd') istr >> f; else if (c == 'w') istr >> w; else if (c == 'i') istr >> n; else if (c == 'u') istr >> u; }
       bool fb = istr.fail(), eb = istr.eof();
       bool r = p.pure_data(istr);
       std::cout << "pd " << (fb ? 1 : 0) << (eb ? 1 : 0) << " " << (r ? 1 : 0) << "\n";
